@@ -17,8 +17,14 @@
      Acquire/Release `with self.lock:` entry / exit  (threading.Lock: not re-entrant)
      Check          `if self.device is None` under the lock
      Enter/Exit     call into / return from a driver method (self.device.<m>() or device.connect())
-   device: "open" while self.device is a usable driver object, "closed" after the driver's close() was
-   entered (close() sets self.device = None in the same lock region) and before device.connect() returned.
+   device: state of the DRIVER object: "open" while it is usable, "closed" from the moment its close() was
+   entered (whether close() then returns or raises IOError) until device.connect() returned a new one.
+   ref: the frontend's view, self.device is not None.  The `self.device is None` tests read ref, the
+   invariant NotAfterClose judges device.  A driver close() may FAIL (raise the IOError that
+   ContactlessFrontend.close() swallows); whether `self.device = None` is still executed then is a fact
+   of the code, extracted per close() call site as CloseClears[site] \in {"always", "onsuccess", "never"}.
+   The assignment (`self.device = None` after close, `self.device = <driver>` after device.connect) becomes
+   visible at the thread's next Release / End (pc[t].pend).
 
    Waived: call sites excluded from the invariants.  The check starts with Waived = {} and moves a
    site into Waived only to keep exploring after it has reported that site as a violation, so one
@@ -29,6 +35,8 @@ CONSTANTS Thread,      \* application threads
           Ops,         \* names of public operations
           OpSegs,      \* [Ops -> Seq([locked: BOOLEAN, guarded: BOOLEAN, calls: SUBSET Site])]
           SiteM,       \* [Site -> driver method name]
+          CloseClears, \* [Site -> "always" | "onsuccess" | "never" | "-"]: is self.device = None executed after
+                       \* the driver's close() at this site returned / also when it raised IOError
           Waived       \* SUBSET Site
 
 Site == DOMAIN SiteM
@@ -36,14 +44,17 @@ Free == "free"
 
 VARIABLES lock,        \* Free or the thread that owns clf.lock
           inDriver,    \* threads currently inside a driver method
-          device,      \* "open" / "closed"
+          device,      \* driver object: "open" / "closed"
+          ref,         \* self.device is not None
           closer,      \* call site of the close() that closed the device last ("" if none yet)
           pc           \* per thread: [op, seg, chk, site, late, hit]
-vars == <<lock, inDriver, device, closer, pc>>
+vars == <<lock, inDriver, device, ref, closer, pc>>
 
 \* late: the call was entered while the device was closed; hit: a close() call site that closed the
 \* device while this thread was inside the driver (both only serve to name the culprit of NotAfterClose)
-Idle == [op |-> "", seg |-> 0, chk |-> FALSE, site |-> "", late |-> FALSE, hit |-> ""]
+\* pend: assignment to self.device that follows the driver call just made: "clear" (= None), "set" (a new
+\* driver), "kept" (close() was called but the reference is kept), "" (no close / connect in this region)
+Idle == [op |-> "", seg |-> 0, chk |-> FALSE, site |-> "", late |-> FALSE, hit |-> "", pend |-> ""]
 Segs(t) == OpSegs[pc[t].op]
 Seg(t) == Segs(t)[pc[t].seg]
 
@@ -51,6 +62,7 @@ TypeOK ==
     /\ lock \in {Free} \cup Thread
     /\ inDriver \subseteq Thread
     /\ device \in {"open", "closed"}
+    /\ ref \in BOOLEAN
     /\ closer \in Site \cup {""}
     /\ \A t \in Thread : /\ pc[t].op \in Ops \cup {""}
                          /\ pc[t].site \in Site \cup {""}
@@ -60,6 +72,7 @@ Init ==
     /\ lock = Free
     /\ inDriver = {}
     /\ device \in {"open", "closed"}
+    /\ ref = (device = "open")
     /\ closer = ""
     /\ pc = [t \in Thread |-> Idle]
 
@@ -68,11 +81,15 @@ Set(t, f, v) == [pc EXCEPT ![t][f] = v]
 Begin(t, o) ==
     /\ pc[t] = Idle
     /\ pc' = [pc EXCEPT ![t] = [Idle EXCEPT !.op = o]]
-    /\ UNCHANGED <<lock, inDriver, device, closer>>
+    /\ UNCHANGED <<lock, inDriver, device, ref, closer>>
+
+\* the pending assignment to self.device has happened by the time the thread leaves the region / operation
+RefAfter(t) == CASE pc[t].pend = "clear" -> FALSE [] pc[t].pend = "set" -> TRUE [] OTHER -> ref
 
 End(t) ==
     /\ pc[t].op # "" /\ pc[t].seg = 0 /\ pc[t].site = ""
     /\ pc' = [pc EXCEPT ![t] = Idle]
+    /\ ref' = RefAfter(t)
     /\ UNCHANGED <<lock, inDriver, device, closer>>
 
 \* `with self.lock:` of lock region k of the current operation
@@ -82,17 +99,18 @@ Acquire(t, k) ==
     /\ lock = Free
     /\ lock' = t
     /\ pc' = [pc EXCEPT ![t].seg = k, ![t].chk = FALSE]
-    /\ UNCHANGED <<inDriver, device, closer>>
+    /\ UNCHANGED <<inDriver, device, ref, closer>>
 
 \* `if self.device is None: raise ...` / `if self.device is not None:` evaluated under the lock
 Check(t) ==
     /\ pc[t].seg # 0 /\ Seg(t).locked /\ Seg(t).guarded /\ ~pc[t].chk /\ pc[t].site = ""
-    /\ device = "open"
+    /\ ref
     /\ pc' = Set(t, "chk", TRUE)
-    /\ UNCHANGED <<lock, inDriver, device, closer>>
+    /\ UNCHANGED <<lock, inDriver, device, ref, closer>>
 
+\* (after close() / device.connect() a region makes no further driver call: pend = "")
 CanCall(t, s) ==
-    /\ pc[t].op # "" /\ pc[t].site = ""
+    /\ pc[t].op # "" /\ pc[t].site = "" /\ pc[t].pend = ""
     /\ IF pc[t].seg # 0
        THEN /\ s \in Seg(t).calls
             /\ Seg(t).guarded => pc[t].chk
@@ -102,7 +120,8 @@ CanCall(t, s) ==
 \* lock region that tested the device under the lock was overtaken by a close() -> the close site (hit);
 \* any other call that starts on a closed device -> the caller's own site (late).
 Checked(t) == pc[t].seg # 0 /\ Seg(t).locked /\ Seg(t).guarded
-OnClosed(s) == device = "closed" /\ SiteM[s] \notin {"close", "connect"}
+\* (a second close() reaching a driver that is already closed counts as well)
+OnClosed(s) == device = "closed" /\ SiteM[s] # "connect"
 EnterPc(t, s) ==
     [u \in Thread |->
         IF u = t THEN [pc[t] EXCEPT !.site = s, !.chk = (pc[t].seg # 0),
@@ -116,23 +135,31 @@ Enter(t, s) ==
     /\ inDriver' = inDriver \cup {t}
     /\ pc' = EnterPc(t, s)
     /\ device' = IF SiteM[s] = "close" THEN "closed" ELSE device
-    /\ closer' = IF SiteM[s] = "close" THEN s ELSE closer
-    /\ UNCHANGED lock
+    /\ closer' = IF SiteM[s] = "close" /\ device = "open" THEN s ELSE closer
+    /\ UNCHANGED <<lock, ref>>
 
-Exit(t) ==
+\* return from the driver; ok = FALSE: the driver method raised (close: the IOError that close() swallows;
+\* device.connect: no reader found)
+ExitF(t, ok) ==
     /\ pc[t].site # ""
     /\ inDriver' = inDriver \ {t}
-    /\ pc' = [pc EXCEPT ![t].site = "", ![t].late = FALSE, ![t].hit = ""]
-    /\ IF SiteM[pc[t].site] = "connect"
-       THEN device' \in {"open", device}            \* device.connect(path) found a reader or not
-       ELSE UNCHANGED device
-    /\ UNCHANGED <<lock, closer>>
+    /\ LET s == pc[t].site
+           m == SiteM[s]
+           pend == CASE m = "connect" -> IF ok THEN "set" ELSE "clear"
+                     [] m = "close" -> IF CloseClears[s] = "always" \/ (ok /\ CloseClears[s] = "onsuccess")
+                                       THEN "clear" ELSE "kept"
+                     [] OTHER -> pc[t].pend
+       IN /\ pc' = [pc EXCEPT ![t].site = "", ![t].late = FALSE, ![t].hit = "", ![t].pend = pend]
+          /\ device' = IF m = "connect" /\ ok THEN "open" ELSE device
+    /\ UNCHANGED <<lock, ref, closer>>
+Exit(t) == \E ok \in BOOLEAN : ExitF(t, ok)
 
 \* leaving the `with` block (normally, by return, or by the ENODEV exception)
 Release(t) ==
     /\ pc[t].seg # 0 /\ pc[t].site = ""
     /\ lock' = IF lock = t THEN Free ELSE lock
-    /\ pc' = [pc EXCEPT ![t].seg = 0, ![t].chk = FALSE]
+    /\ pc' = [pc EXCEPT ![t].seg = 0, ![t].chk = FALSE, ![t].pend = ""]
+    /\ ref' = RefAfter(t)
     /\ UNCHANGED <<inDriver, device, closer>>
 
 Next == \E t \in Thread :
@@ -170,7 +197,8 @@ Consistent == ConsistentP(inDriver, pc, lock)
 \* Reachability witnesses (TLC must violate each one; otherwise the run is vacuous)
 W_InDriverLocked == ~(\E t \in Thread : t \in inDriver /\ lock = t)
 W_Waiting == ~(\E t, u \in Thread : t # u /\ lock = t /\ t \in inDriver /\ pc[u].op # "" /\ pc[u].seg = 0)
-W_Enodev == ~(\E t \in Thread : pc[t].seg # 0 /\ Seg(t).guarded /\ ~pc[t].chk /\ device = "closed")
+W_Enodev == ~(\E t \in Thread : pc[t].seg # 0 /\ Seg(t).guarded /\ ~pc[t].chk /\ ~ref)
+W_CloseFailed == ~(device = "closed" /\ ~ref /\ closer # "" /\ \E t \in Thread : pc[t].op = "close" /\ pc[t].seg = 0)
 W_Closed == ~(\E t \in Thread : t \in inDriver /\ SiteM[pc[t].site] = "close")
 W_Reopen == ~(\E t \in Thread : t \in inDriver /\ SiteM[pc[t].site] = "connect" /\ device = "closed")
 W_TwoOps == ~(\E t, u \in Thread : t # u /\ pc[t].op = "connect" /\ pc[u].op = "close" /\ lock = u)
